@@ -47,7 +47,11 @@ ModeFrames == { i \in 1..Len(stk) : \/ stk[i].k = "math"
 InMath == IF ModeFrames = {} THEN FALSE
           ELSE LET i == CHOOSE k \in ModeFrames : \A m \in ModeFrames : m <= k IN
                ~(stk[i].k = "arggroup" /\ stk[i].bodykind = "text")
-InDiscard == \E i \in 1..Len(stk) : stk[i].k \in {"call", "env", "envcall"} /\ stk[i].name \in DiscardMacros
+(* also: the ARGUMENTS of an environment whose conversion drops them (\begin{array}{cc}: the column specification), *)
+(* written as names "args:<environment>" in DiscardMacros                                                          *)
+ArgsOf(nm) == <<97, 114, 103, 115, 58>> \o nm
+InDiscard == \E i \in 1..Len(stk) : \/ (stk[i].k \in {"call", "env", "envcall"} /\ stk[i].name \in DiscardMacros)
+                                     \/ (stk[i].k = "envcall" /\ ArgsOf(stk[i].name) \in DiscardMacros)
 AddChild(c) == [stk EXCEPT ![Len(stk)].body = Append(@, c)]
 Letter(c) == c \in (65..90) \cup (97..122)
 
@@ -141,6 +145,7 @@ Call(m) == /\ CanContent
 BeginEnv(e) == /\ CanContent /\ ~(InMath /\ e[3] = "math") /\ e[3] # "legacyverb"
                /\ (e[3] = "math" => ~InDiscard)
                /\ (e[1] \in DiscardMacros => ~InMath /\ e[3] # "math")
+               /\ (ArgsOf(e[1]) \in DiscardMacros => ~InMath)     \* (a formula shown verbatim would show the dropped arguments)
                /\ Write(<<92, 98, 101, 103, 105, 110, 123>> \o e[1] \o <<125>>,
                         Settle(Append(stk, F("envcall", e[1], e[2], <<Len(src)>>, e[3]))), "sym")
                /\ UNCHANGED mk
